@@ -135,6 +135,22 @@ func (r *runner) realmOf(recv int) int {
 	return -1
 }
 
+func (run *runner) realmConfig(i int) *router.RealmConfig {
+	rc := &run.sc.Realms[i]
+	c := &router.RealmConfig{
+		URI: realmURI(i), StrictURI: rc.Strict, AnonymousAuth: true, AllowDisclose: rc.Disclose,
+		MetaStrict: rc.MetaStrict, EnableMetaKill: rc.Kill, EnableMetaModify: rc.Modify,
+		RequireLocalAuthz: rc.LocalAuthz,
+	}
+	for _, h := range rc.Hist {
+		c.TopicEventHistoryConfigs = append(c.TopicEventHistoryConfigs, &router.TopicEventHistoryConfig{Topic: wamp.URI(h.Topic), MatchPolicy: h.Match, Limit: h.Limit})
+	}
+	if len(rc.Rules) > 0 {
+		c.Authorizer = &tableAuthz{rules: rc.Rules, run: run}
+	}
+	return c
+}
+
 func realmURI(i int) wamp.URI { return wamp.URI("realm" + strconv.Itoa(i)) }
 
 // RunImpl executes the scenario against the real router inside a synctest
@@ -157,19 +173,7 @@ func runInBubble(sc *Scenario, res *ImplRun) {
 		namer: NewPubNamer(), env: &canonEnv{sidMap: map[string]string{}, authIDs: map[string]bool{}}}
 	cfg := &router.Config{}
 	for i := range sc.Realms {
-		rc := &sc.Realms[i]
-		c := &router.RealmConfig{
-			URI: realmURI(i), StrictURI: rc.Strict, AnonymousAuth: true, AllowDisclose: rc.Disclose,
-			MetaStrict: rc.MetaStrict, EnableMetaKill: rc.Kill, EnableMetaModify: rc.Modify,
-			RequireLocalAuthz: rc.LocalAuthz,
-		}
-		for _, h := range rc.Hist {
-			c.TopicEventHistoryConfigs = append(c.TopicEventHistoryConfigs, &router.TopicEventHistoryConfig{Topic: wamp.URI(h.Topic), MatchPolicy: h.Match, Limit: h.Limit})
-		}
-		if len(rc.Rules) > 0 {
-			c.Authorizer = &tableAuthz{rules: rc.Rules, run: run}
-		}
-		cfg.RealmConfigs = append(cfg.RealmConfigs, c)
+		cfg.RealmConfigs = append(cfg.RealmConfigs, run.realmConfig(i))
 	}
 	rt, err := router.NewRouter(cfg, log.New(io.Discard, "", 0))
 	if err != nil {
@@ -333,6 +337,12 @@ func (run *runner) exec(or *OpResult, res *ImplRun) {
 		c.cli.Close()
 	case "tick":
 		time.Sleep(time.Duration(op.Ms) * time.Millisecond)
+	case "rmrealm":
+		run.rt.RemoveRealm(realmURI(op.Realm))
+	case "addrealm":
+		if err := run.rt.AddRealm(run.realmConfig(op.Realm)); err != nil {
+			or.Failed = "AddRealm: " + err.Error()
+		}
 	case "msg":
 		c := run.clients[op.Sess]
 		if c == nil || c.dropped || isClosed(c) {
